@@ -3,6 +3,7 @@ from rules.common import *
 from rules import v1model
 
 LEVEL = 'other'
+FIXTURES = ['F3', 'F6']
 
 
 def run(ctx, R):
